@@ -336,9 +336,9 @@ func c09Authorised(w *world.World, ctx sdk.Context) []engine.Op {
 }
 
 func C09Scenario(tier string) *engine.Scenario {
-	d := 3
+	d := 4
 	if tier == "thorough" {
-		d = 4
+		d = 6
 	}
 	sc := &engine.Scenario{ID: "C09-auth", Cfg: world.Config{TwoValidators: true}, Depth: d, Oracle: AuthOracle{Prop: "C09"}}
 	sc.Roots = []engine.Root{{Name: "A1", Setup: authSetup}}
@@ -455,9 +455,9 @@ func c10Ops(w *world.World, ctx sdk.Context) []engine.Op {
 }
 
 func C10Scenario(tier string) *engine.Scenario {
-	d := 3
+	d := 4
 	if tier == "thorough" {
-		d = 4
+		d = 7
 	}
 	sc := &engine.Scenario{ID: "C10-actors", Depth: d, Oracle: AuthOracle{Prop: "C10"}}
 	sc.Roots = []engine.Root{{Name: "B1", Setup: c10Setup}}
